@@ -61,6 +61,8 @@ fn model(log: &[Rec], setups: &[Setup], exact_first_seen: bool, m: &mut Mon) {
     let mut first_seen_metric_seen = false;
     let mut attempt_plan: Option<String> = None;
     let mut await_commit = false;
+    let mut committed_failed_installs: Option<i64> = None;
+    let mut counted_in_check = false;
     let autotick = log.iter().any(|r| matches!(r.ev, Ev::ClockRead { .. }));
 
     let end_incarnation = |m: &mut Mon, expect_report: bool, record_at_start: &Option<(i64, String)>, reported: usize, start_wall: Option<i128>, passed: bool, clean: bool, durable: &Book, crashed_early: bool, missed: bool, cleared_judgeable: bool| {
@@ -142,6 +144,15 @@ fn model(log: &[Rec], setups: &[Setup], exact_first_seen: bool, m: &mut Mon) {
                 // an install with no failed app after which the machine never attempted a reboot (none needed, or
                 // none allowed yet): the record must be durable by the time the check is over — the device may go
                 // down by other means at any moment
+                // the failed-install count as changed by this check's install is durable once the check is over
+                if counted_in_check {
+                    if let Some(c) = committed_failed_installs {
+                        m.judge("c18-attempts-count-committed-with-the-check", c == mem.failed_installs, "", || {
+                            format!("at seq {} the check is over (Idle): the store holds a failed-install count of {}, the count after this check's install is {}", r.seq, c, mem.failed_installs)
+                        });
+                    }
+                    counted_in_check = false;
+                }
                 if await_commit {
                     m.judge("c18-finish-and-target-committed-before-reboot", finish_committed, "idle-without-reboot", || {
                         format!("at seq {} the check is over (Idle) and the finish time {:?} / target version {:?} of the install with no failed app had not been committed", r.seq, finish.map(|f| f / 1000), expect_target)
@@ -174,6 +185,7 @@ fn model(log: &[Rec], setups: &[Setup], exact_first_seen: bool, m: &mut Mon) {
                 let crashed_early = !passed_first_next;
                 end_incarnation(m, expect_report, &record_at_start, reported, start_wall, passed_first_next, clean_install_in_inc, &durable, crashed_early, missed_consistent_opportunity, next_after_report);
                 mem = durable.clone();
+                counted_in_check = false;
                 inc += 1;
                 let s = &setups[inc.min(setups.len() - 1)];
                 os_version = s.os_version.clone();
@@ -191,6 +203,10 @@ fn model(log: &[Rec], setups: &[Setup], exact_first_seen: bool, m: &mut Mon) {
                 attempt_plan = Some(plan_id.clone());
             }
             Ev::Commit { ok: true, snapshot } => {
+                committed_failed_installs = match snapshot.get("consecutive_failed_install_attempts") {
+                    Some(Val::I(v)) => Some(*v),
+                    _ => Some(0),
+                };
                 if let Some(p) = attempt_plan.take() {
                     // the first-seen record of a new plan is written (and committed) before the install starts
                     let t = if autotick { last_read_wall.unwrap_or(r.wall) } else { r.wall };
@@ -313,6 +329,7 @@ fn model(log: &[Rec], setups: &[Setup], exact_first_seen: bool, m: &mut Mon) {
                     format!("AttemptsToSuccessfulInstall {{count {}, successful {}}} at seq {}; expected count {} successful {} (install seen={}, counted={})", count, ok, r.seq, want, no_failed, in_install, any_counted)
                 });
                 mem.failed_installs = if *ok { 0 } else { want };
+                counted_in_check = true;
             }
             Ev::Taken(EvSnap::Result(_)) => {
                 if in_install && no_failed {
@@ -372,6 +389,7 @@ pub fn run(args: &Args, r: &mut Report) {
         "c18-finish-and-target-committed-before-reboot",
         "c18-attempts-count",
         "c18-attempts-reported-iff-counted",
+        "c18-attempts-count-committed-with-the-check",
         "c18-waited-for-reboot-value",
         "c18-waited-for-reboot-reported-once",
         "c18-waited-for-reboot-at-most-once",
